@@ -502,6 +502,8 @@ func (c *caseRunner) runLine(line string) {
 			return
 		}
 		c.res.Count(fmt.Sprintf("honest:prefixes:v%d", v))
+		c.ask(fmt.Sprintf("proofprefixes %d %d %s", v, limit, w[3]), "builder-differs",
+			expect(fmt.Sprintf("proof %s %s", hx(rsp.Proof.UntrustedRoot[:]), showEntries(rsp.Proof.Entries))))
 		// keys the request asked about (up to the limit, in order)
 		var asked [][]byte
 		total := 0
@@ -532,6 +534,8 @@ func (c *caseRunner) runLine(line string) {
 			return
 		}
 		c.res.Count(fmt.Sprintf("honest:iterate:v%d", v))
+		c.ask(fmt.Sprintf("proofiter %d %d %s", v, prefetch, hx(k)), "builder-differs",
+			expect(fmt.Sprintf("proof %s %s", hx(rsp.Proof.UntrustedRoot[:]), showEntries(rsp.Proof.Entries))))
 		var asked [][]byte
 		i := sort.Search(len(s.keys), func(i int) bool { return bytes.Compare(s.keys[i], k) >= 0 })
 		for j := i; j < len(s.keys) && j <= i+prefetch; j++ {
